@@ -5,7 +5,7 @@ import itertools
 
 import numpy as np
 
-from .. import builders, env, ref
+from .. import builders, env, ref, sequences
 from ..runner import LibraryRaised, Recorder, lib
 
 PROPERTY = 'C10'
@@ -20,6 +20,7 @@ RULE = (
     "their definition relative to the tables they are derived from.  Non-trivial: encodings differing "
     "from the plain one in >= 2 factors."
     ' Also: fill value 0 with one-based indexes, mesh M10 with unused nodes, dataset purity and a second topology object on the same dataset and on a copy; thorough: one 49284-node mesh with derived tables only.'
+    " Datasets also arrive with a history: warmed convention, copy, deep copy, pickle, netCDF round trip, fully chunked (dask), and hand-built conventions for coordinates autodetection would not pick (decoy pair), after warm / pickle. Also (operation sequences, mc/sequences.py): for 8 base datasets and every sequence `first [middle] query` over 36 operations (queries, in-place edits a user makes, transforms whose result is used next; quick length 2, thorough length 3) ending in one of this property's own queries, the answer on the one used object equals the answer on a never-used rebuild. Second phase: the first case of every distinct outcome and kind (thorough: every case, for expensive checks every kind) again with debug logging enabled, under numpy.errstate(all='ignore'), and in python -O child interpreters."
 )
 LEVEL_TEXT = ("every encoding in the stated product for every mesh of the library (~400 encodings per mesh): normalised "
               "face-node table and polygons equal the builder's faces; supplied tables as given; derived tables by "
@@ -43,7 +44,7 @@ def subsets(items):
             yield list(combo)
 
 
-def cases(tier):
+def _cases_first_call(tier):
     meshes = ['M1', 'M4', 'M6', 'M8'] if tier == 'quick' else ['M1', 'M2', 'M3', 'M4', 'M5', 'M6', 'M7', 'M8', 'M9', 'M10']
     out = []
     for mesh in meshes:
@@ -71,6 +72,24 @@ def cases(tier):
                         out.append({**spec, 'extra_width': 1})
                     if 'edge_face' in supplied and coords_as == 'var':
                         out.append({**spec, 'edge_face_missing_first': True})
+    # the dimension of length two of the edge tables under another name, on meshes and datasets where other
+    # dimensions have length two as well (two faces; two time steps; two layers)
+    for mesh in (['M1', 'M4'] if tier == 'quick' else ['M1', 'M2', 'M4', 'M6']):
+        for supplied in (['edge_node'], ['edge_face'], ['edge_node', 'edge_face'], list(builders.OPTIONAL_TABLES)):
+            for nt, nk in ((2, 3), (3, 2), (1, 1)):
+                for transposed in (False, True):
+                    out.append({'family': 'ugrid', 'mesh': mesh, 'start_index': 1, 'fill': 'fillattr', 'transposed': transposed,
+                                'supplied': supplied, 'edge_dim': 'declared', 'coords_as': 'var', 'two_dim': 'nv', 'nt': nt, 'nk': nk})
+                    if not transposed:
+                        out.append({'family': 'ugrid', 'mesh': mesh, 'start_index': 0, 'fill': 'nan', 'transposed': False,
+                                    'supplied': supplied, 'edge_dim': 'implied', 'coords_as': 'var', 'two_dim': 'nv', 'nt': nt, 'nk': nk,
+                                    'io': 'reopen'})
+    # topologies of datasets that have been used, copied, pickled, saved or chunked before
+    for mesh in (['M6'] if tier == 'quick' else ['M4', 'M6', 'M7']):
+        for history in ([h['history'] for h in builders.history_specs(tier) if h['family'] == 'ugrid']):
+            for supplied in ([], ['face_face'], list(builders.OPTIONAL_TABLES)):
+                out.append({'family': 'ugrid', 'mesh': mesh, 'start_index': 1, 'fill': 'fillattr', 'transposed': False,
+                            'supplied': supplied, 'edge_dim': 'declared', 'coords_as': 'var', 'history': history})
     if tier == 'thorough':
         # one mesh above 46341 nodes (node count squared exceeds int32): derived tables only
         nodes, faces = builders._lattice_mesh(222, 222)
@@ -90,7 +109,7 @@ def pad(rows, width):
     return [list(r) + [None] * (width - len(r)) for r in rows]
 
 
-def run_case(case):
+def _run_case_first_call(case):
     rec = Recorder()
     spec = {k: v for k, v in case.items() if k != 'io'}
     ds, truth = builders.build(spec)
@@ -255,3 +274,16 @@ def check_once(rec, case, ds, truth, fp):
                   [sorted(a) for a in adjacency][:4], face_face[:4])
     rec.outcome([case['mesh'], case['edge_dim'], sorted(supplied), edge_node is not None])
     return rec.result()
+
+
+def cases(tier):
+    # first calls on freshly built datasets, then operation sequences on one object (mc/sequences.py)
+    return _cases_first_call(tier) + sequences.cases_for(PROPERTY, tier)
+
+
+def run_case(case):
+    if case.get('part') == 'sequence':
+        rec = Recorder()
+        sequences.run_case(PROPERTY, case, rec)
+        return rec.result()
+    return _run_case_first_call(case)
